@@ -5,10 +5,13 @@
 #include <rtosc/subtree-serialize.h>
 
 // application object for the subtree_serialize sub-check
-struct SApp { int a = 0, b = 0; float f = 0; bool t = false; char c = 0; int hidden = 0; static rtosc::Ports ports; };
+struct SApp { int a = 0, b = 0; float f = 0; bool t = false; char c = 0; int hidden = 0; int actions = 0; static rtosc::Ports ports; };
 #define rObject SApp
 rtosc::Ports SApp::ports = {
-    rParamI(a, "a"), rParamF(f, "f"), rToggle(t, "t"), rParam(c, "c"), rParamI(b, "b"),
+    rParamI(a, "a"), rParamF(f, "f"),
+    // a port that answers nothing (an action): it contributes no element
+    {"act:", rDoc("action"), NULL, [](const char *, rtosc::RtData &d) { ((SApp *)d.obj)->actions++; }},
+    rToggle(t, "t"), rParam(c, "c"), rParamI(b, "b"),
     {"hidden::i", rProp(internal) rDoc("not serialised"), NULL, rParamICb(hidden)},
 };
 #undef rObject
